@@ -311,3 +311,15 @@ package estargz
 //@   requires org != nil && tmp != nil
 //@   ensures[C03] result1 == nil && dgR != nil ==> drained == payload(dgR)
 //@   ensures[C03] result1 == nil && dzR != nil ==> drained == ref(dzR)
+
+// ---- C03 / C02: user and group names survive the TOC's "omit if unchanged" encoding ----
+// The writer omits a name that equals the last one recorded for the same numeric id; the reader (initFields) fills an
+// omitted name in from the last name it saw for that id. The pair is lossless iff what the reader will fill in equals the
+// name in the tar header: expand(result, previous) == name.
+//@ func (w *Writer) nameIfChanged
+//@   props C03
+//@   requires mp != nil
+//@   ensures[C03] name != "" ==> (result != "" ? result : ((old(deref(mp)) != nil && oldhas(deref(mp), id)) ? oldget(deref(mp), id) : "")) == name
+//@   ensures[C03] name == "" ==> (result != "" ? result : ((old(deref(mp)) != nil && oldhas(deref(mp), id)) ? oldget(deref(mp), id) : "")) == name
+// ... and what the writer remembers for the id is what the reader will remember (the last non-empty name)
+//@   ensures[C03] name != "" ==> deref(mp) != nil && id in deref(mp) && deref(mp)[id] == name
